@@ -10,13 +10,18 @@ Levels == 0..5
 Depths == {"absent", "0", "1", "infinity", "bad"}
 CTs == {"none", "xml", "textxml", "obj", "other", "malformed"}
 Bodies == {"none", "valid", "emptyxml", "wrongroot", "truncated", "garbage", "badobj", "badobj2"}
-Base(s, m, lv) == [srv |-> s, m |-> m, level |-> lv, depth |-> "absent", ow |-> "absent", dest |-> "na", ctype |-> "none", body |-> "none"]
+Base(s, m, lv) == [srv |-> s, m |-> m, level |-> lv, depth |-> "absent", ow |-> "absent", dest |-> "na", ctype |-> "none", body |-> "none", cond |-> "none"]
 LevelsOf(s) == IF s = "dav" THEN 0..3 ELSE IF s = "principal" THEN {1} ELSE Levels
 ReqsOf(s, m) == {[Base(s, m, lv) EXCEPT !.ctype = c, !.body = b, !.depth = d] :
                    lv \in LevelsOf(s), c \in CTs, b \in Bodies, d \in (IF m = "PROPFIND" THEN Depths ELSE {"absent"})}
 CopyMoveOf(s) == {[Base(s, m, lv) EXCEPT !.depth = d, !.ow = o, !.dest = ds] :
                     m \in {"COPY", "MOVE"}, lv \in (IF Big THEN LevelsOf(s) ELSE {1, 3} \cap LevelsOf(s)), d \in Depths, o \in {"absent", "T", "F", "bad"}, ds \in {"ok", "missing", "bad"}}
-Reqs == UNION {UNION {ReqsOf(s, m) : m \in Methods} : s \in Srvs} \cup UNION {CopyMoveOf(s) : s \in Srvs}
+\* conditional headers whose value is not an entity tag (one byte, a lone quote, an unterminated string, a bare weak prefix, ...)
+Conds == {h \o "-" \o f : h \in {"ifm", "ifnm"}, f \in {"onebyte", "quote", "unterminated", "weakprefix", "bare", "comma"}}
+CondOf(s) == {[Base(s, m, lv) EXCEPT !.cond = c, !.ctype = (IF m = "PUT" THEN ct ELSE "none"), !.body = (IF m = "PUT" THEN "valid" ELSE "none")] :
+                m \in {"PUT", "DELETE"}, lv \in {1, 2, 3, 4} \cap LevelsOf(s), c \in Conds, ct \in {"obj", "other"}}
+CondReqs == UNION {CondOf(s) : s \in {"dav", "cal", "card"}}
+Reqs == UNION {UNION {ReqsOf(s, m) : m \in Methods} : s \in Srvs} \cup UNION {CopyMoveOf(s) : s \in Srvs} \cup CondReqs
 \* representative valid documents whose every single-edit mutant is sent
 CalQ == [comp |-> [name |-> "VCALENDAR", allprops |-> FALSE, props |-> <<"n1">>, allcomps |-> FALSE, expand |-> <<[s |-> "i1", e |-> "i2"]>>,
                    comps |-> <<[name |-> "VEVENT", allprops |-> TRUE, props |-> << >>, allcomps |-> TRUE, comps |-> << >>, expand |-> << >>]>>],
@@ -46,7 +51,7 @@ Mutants == {[srv |-> "cal", m |-> "REPORT", level |-> 3, doc |-> d] : d \in Edit
            \cup UNION {{[srv |-> s, m |-> "PROPPATCH", level |-> lv, doc |-> d] : lv \in {2, 3} \cap LevelsOf(s), d \in Edits(Proppatch)} : s \in Srvs \ {"principal"}}
 \* F0: the classification is total and the unmutated documents are valid requests
 ASSUME \A r \in Reqs : Expect(r) \in {"4xx", "any", "not5xx"}
-ASSUME \A r \in Reqs : (r.m \in {"GET", "HEAD", "DELETE", "OPTIONS", "FOO", "POST", "LOCK"} /\ r.depth # "bad") => Expect(r) = "any"
+ASSUME \A r \in Reqs : (r.m \in {"GET", "HEAD", "DELETE", "OPTIONS", "FOO", "POST", "LOCK"} /\ r.depth # "bad" /\ r.cond = "none") => Expect(r) = "any"
 ASSUME Cal!QueryShape(Cal!QueryDoc(CalQ)) /\ Cal!QueryDenotes(Cal!QueryDoc(CalQ)) = CalQ /\ Card!QueryShape(Card!QueryDoc(CardQ))
 ASSUME ndJsonSerialize(IOEnv.OUT \o "/robust.ndjson", SetToSeq({[r |-> r, want |-> Expect(r)] : r \in Reqs}))
 ASSUME ndJsonSerialize(IOEnv.OUT \o "/mutants.ndjson", SetToSeq(Mutants))
